@@ -84,6 +84,24 @@ def mapSet (m : List (Str × Str)) (k v : Str) : List (Str × Str) :=
   | [] => [(k, v)]
   | (k', v') :: r => if k' = k then (k, v) :: r else (k', v') :: mapSet r k v
 
+/-! ### the literals of parser.go -/
+
+def kwFlags : Str := "flags.".toList
+def kwVector : Str := "Vector".toList
+def kwEq : Str := "=".toList
+def kwQuestion : Str := "?".toList
+def kwFunctions : Str := "---functions---".toList
+def kwTypes : Str := "---types---".toList
+def kwSlashes : Str := "//".toList
+def kwFlagsWord : Str := "flags".toList
+def kwHash : Str := "#".toList
+def kwBitflags : Str := "bitflags".toList
+def kwAtType : Str := "@type".toList
+def kwAtEnum : Str := "@enum".toList
+def kwAtConstructor : Str := "@constructor".toList
+def kwAtMethod : Str := "@method".toList
+def kwAtParam : Str := "@param".toList
+
 /-! ### excluded.go -/
 
 def excludedDefinitions : List Str :=
@@ -147,6 +165,19 @@ inductive Res (α : Type) where
   | err (e : PErr)
   deriving Repr
 
+/-- the second half of `parseParam` ("читаем тип параметра"): `Vector<T>` or a type up to the next blank -/
+def parseParamType (name : Str) (isOpt : Bool) (bit : Nat) (c : Cursor) : Res Param :=
+  let (isVec, c) := c.isNext kwVector
+  if isVec then
+    let c := c.skip 1
+    match c.readAt '>' with
+    | none => .eof
+    | some (ty, c) => .ok { name, type := ty, isVector := true, isOptional := isOpt, bit } (c.skip 1)
+  else
+    match c.readAt ' ' with
+    | none => .eof
+    | some (ty, c) => .ok { name, type := ty, isVector := false, isOptional := isOpt, bit } c
+
 def parseParam (c : Cursor) : Res Param :=
   let c := c.skipSpaces
   match c.readAt ':' with
@@ -154,47 +185,44 @@ def parseParam (c : Cursor) : Res Param :=
   | some (name, c) =>
     let c := c.skip 1
     -- flags.N?
-    let (isFlag, c) := c.isNext "flags.".toList
-    let opt : Res (Bool × Nat) :=
-      if isFlag then
-        match c.readDigits with
-        | none => .eof
-        | some (digits, c) =>
-          match atoi? digits with
-          | none => .err .param
-          | some bit =>
-            let (q, c) := c.isNext "?".toList
-            if q then .ok (true, bit) c else .err .param
-      else .ok (false, 0) c
-    match opt with
-    | .eof => .eof
-    | .err e => .err e
-    | .ok (isOpt, bit) c =>
-      let (isVec, c) := c.isNext "Vector".toList
-      if isVec then
-        let c := c.skip 1
-        match c.readAt '>' with
-        | none => .eof
-        | some (ty, c) => .ok { name, type := ty, isVector := true, isOptional := isOpt, bit } (c.skip 1)
-      else
-        match c.readAt ' ' with
-        | none => .eof
-        | some (ty, c) => .ok { name, type := ty, isVector := false, isOptional := isOpt, bit } c
+    let (isFlag, c) := c.isNext kwFlags
+    if isFlag then
+      match c.readDigits with
+      | none => .eof
+      | some (digits, c) =>
+        match atoi? digits with
+        | none => .err .param
+        | some bit =>
+          let (q, c) := c.isNext kwQuestion
+          if q then parseParamType name true bit c else .err .param
+    else parseParamType name false 0 c
 
 /-- the `for !cur.IsNext("=")` loop of parseDefinition. Every successful `parseParam` moves the
 cursor forward by at least one rune, so `fuel = runes left + 1` is never exhausted. -/
 def parseParams : Nat → Cursor → List Param → Res (List Param)
   | 0, _, _ => .err .loop
   | fuel + 1, c, acc =>
-    let (eq, c) := c.isNext "=".toList
+    let (eq, c) := c.isNext kwEq
     if eq then .ok acc.reverse c else
     match parseParam c with
     | .eof => .eof
     | .err e => .err e
     | .ok p c =>
       let c := c.skipSpaces
-      let p := if p.name = "flags".toList ∧ p.type = "#".toList then { p with type := "bitflags".toList } else p
+      let p := if p.name = kwFlagsWord ∧ p.type = kwHash then { p with type := kwBitflags } else p
       parseParams fuel c (p :: acc)
+
+/-- the type behind `=`: `Vector<T>;` or `T;` (cursor left behind the `;`); `none` = io.EOF -/
+def parseResult (c : Cursor) : Option (Str × Bool × Cursor) :=
+  let (isVec, c) := c.isNext kwVector
+  if isVec then
+    match (c.skip 1).readAt '>' with
+    | none => none
+    | some (t, c) => some (t, true, c.skip 2)
+  else
+    match c.readAt ';' with
+    | none => none
+    | some (t, c) => some (t, false, c.skip 1)
 
 inductive DefRes where
   | ok (d : Def) (c : Cursor)
@@ -231,20 +259,9 @@ def parseDefinition (c : Cursor) : DefRes :=
         | .eof => .eof
         | .err e => .err e
         | .ok params c =>
-          let c := c.skipSpaces
-          let (isVec, c) := c.isNext "Vector".toList
-          let r : Option (Str × Cursor) :=
-            if isVec then
-              match (c.skip 1).readAt '>' with
-              | none => none
-              | some (t, c) => some (t, c.skip 2)
-            else
-              match c.readAt ';' with
-              | none => none
-              | some (t, c) => some (t, c.skip 1)
-          match r with
+          match parseResult c.skipSpaces with
           | none => .eof
-          | some (eqType, c) =>
+          | some (eqType, isVec, c) =>
             match parseHex32? crcString with
             | none => .err .crc
             | some crc => .ok { name, crc, params, eqType, isEqVector := isVec } c
@@ -268,10 +285,10 @@ def PState.result (s : PState) : Schema :=
 /-- the comment branch: `line` is what `ReadAt('\n')` returned after `//` -/
 def PState.comment (s : PState) (line : Str) : PState :=
   let (ctype, text) := splitFirstWord line
-  if ctype = "@type".toList then { s with nextTypeComment := text }
-  else if ctype = "@enum".toList ∨ ctype = "@constructor".toList ∨ ctype = "@method".toList then
+  if ctype = kwAtType then { s with nextTypeComment := text }
+  else if ctype = kwAtEnum ∨ ctype = kwAtConstructor ∨ ctype = kwAtMethod then
     { s with constructorComment := text }
-  else if ctype = "@param".toList then
+  else if ctype = kwAtParam then
     let (pname, pcomment) := splitFirstWord text
     { s with paramComments := mapSet s.paramComments pname pcomment }
   else s
@@ -297,11 +314,11 @@ def PState.define (s : PState) (d : Def) : Option PState :=
 /-- one iteration of the `for` loop: `inl` = the loop ends with this result, `inr` = next iteration -/
 def parseStep (c : Cursor) (s : PState) : Except PErr Schema ⊕ (Cursor × PState) :=
   let c := c.skipSpaces
-  let (f, c) := c.isNext "---functions---".toList
+  let (f, c) := c.isNext kwFunctions
   if f then .inr (c, { s with isFunctions := true }) else
-  let (t, c) := c.isNext "---types---".toList
+  let (t, c) := c.isNext kwTypes
   if t then .inr (c, { s with isFunctions := false }) else
-  let (cm, c) := c.isNext "//".toList
+  let (cm, c) := c.isNext kwSlashes
   if cm then
     match c.readAt '\n' with
     | none => .inl (.error .commentEOF)
